@@ -56,6 +56,10 @@ func c05Docs(thorough bool) []*Node {
 				mp(str("a"), NSlice(TAny, mp(str("a"), NSlice(TAny, mp(str("a"), innerList))))))
 		}
 	}
+	// maps whose KEYS contain "/" or "~" iterated with a value binding (the alias path carries the key as a part)
+	for _, in := range []*Node{mp(str("a"), one), mp(), one} {
+		out = append(out, mp(str("a"), mp(str("x/y"), in, str("p~q"), in, str("~1"), in)), mp(str("a"), mp(str("a"), mp(str("app.io/name"), in, str("plain"), in))))
+	}
 	out = append(out, mp(), mp(str("c"), one))
 	return out
 }
